@@ -3,6 +3,7 @@ package main
 import (
 	"fmt"
 	"math"
+	"sort"
 	"strings"
 
 	"github.com/tdewolff/canvas"
@@ -95,8 +96,10 @@ func run(c *hc.Ctx) {
 			}
 			pts = append(pts, pt)
 		}
-		var ws, wsH []string
-		var keep, keepH []hc.P2
+		groups := map[string]*struct {
+			pts []hc.P2
+			ws  []string
+		}{}
 		failed := false
 		for _, pt := range pts {
 			c.Evals++
@@ -112,6 +115,8 @@ func run(c *hc.Ctx) {
 				kind := "panic:Windings:" + first
 				if illConditioned(pt, cs) {
 					kind += "+near-level"
+				} else if coincidentHits(pt, cs) {
+					kind += "+coincident-hits"
 				}
 				if open {
 					kind += "+open"
@@ -149,34 +154,38 @@ func run(c *hc.Ctx) {
 					c.Fail("contains-not-fills", fmt.Sprintf("Contains(%v,%v,%d)=%v but Fills(Windings=%d)=%v", pt.X, pt.Y, rule, got, w, fl), map[string]any{"P": P.String(), "point": []float64{pt.X, pt.Y}})
 				}
 			}
-			if strings.Contains(flatClass(pt, cs, false), "horizontal") {
-				keepH = append(keepH, pt)
-				wsH = append(wsH, fmt.Sprint(w))
-				c.Count("query-along-horizontal-edge")
-			} else {
-				keep = append(keep, pt)
-				ws = append(ws, fmt.Sprint(w))
+			cl := flatClass(pt, cs, open)
+			g := groups[cl]
+			if g == nil {
+				g = &struct {
+					pts []hc.P2
+					ws  []string
+				}{}
+				groups[cl] = g
+			}
+			g.pts = append(g.pts, pt)
+			g.ws = append(g.ws, fmt.Sprint(w))
+			if cl != "" {
+				c.Count("query-class:" + cl)
 			}
 		}
-		if len(keepH) > 0 {
-			sfx := " +ray-along-horizontal-edge"
-			if open {
-				sfx += "+open"
-			}
-			line := fmt.Sprintf("REGION wind %s P %s PTS %s W %s", hc.H(band), hc.PolyTokens(cs), hc.PtsTokens(keepH), strings.Join(wsH, " "))
-			c.Case(line, "!", "windings-flat"+sfx)
+		var classes []string
+		for cl := range groups {
+			classes = append(classes, cl)
 		}
-		if len(keep) > 0 {
-			line := fmt.Sprintf("REGION wind %s P %s PTS %s W %s", hc.H(band), hc.PolyTokens(cs), hc.PtsTokens(keep), strings.Join(ws, " "))
+		sort.Strings(classes)
+		for _, cl := range classes {
+			g := groups[cl]
 			sfx := ""
-			if open {
-				sfx = " +open"
+			if cl != "" {
+				sfx = " " + cl
 			}
+			line := fmt.Sprintf("REGION wind %s P %s PTS %s W %s", hc.H(band), hc.PolyTokens(cs), hc.PtsTokens(g.pts), strings.Join(g.ws, " "))
 			c.Case(line, "!", "windings-flat"+sfx)
 			c.Distinct(P.String())
 			c.Count(fmt.Sprintf("flat class:%d open:%v", class, open))
-			if it == 0 {
-				c.Sample(fmt.Sprintf("Windings of %q at %v -> %v", P.String(), keep[:3], ws[:3]))
+			if it == 0 && cl == "" {
+				c.Sample(fmt.Sprintf("Windings of %q at %v -> %v", P.String(), g.pts[:1], g.ws[:1]))
 			}
 		}
 		// on-boundary points are reported as boundary
@@ -245,6 +254,15 @@ func run(c *hc.Ctx) {
 				c.Count("curved-point-in-band")
 				continue
 			}
+			// cause class: the ray is exactly level with a segment end point to its right
+			osfx := osfx
+			for _, sg := range segs {
+				if sg.End.Y == pt.Y && sg.End.X >= pt.X {
+					osfx = "+level-with-endpoint" + osfx
+					c.Count("curved-query-level-with-endpoint")
+					break
+				}
+			}
 			c.Evals++
 			var w int
 			var bd bool
@@ -272,7 +290,8 @@ func run(c *hc.Ctx) {
 	// 4. CCW and Filling on simple nested shapes
 	for it := 0; it < c.N; it++ {
 		r := float64(2 + c.Intn(5))
-		shapes := []*canvas.Path{canvas.Circle(r), canvas.Ellipse(r, r/2), canvas.Rectangle(r, r+1), canvas.RegularPolygon(3+c.Intn(6), r, true), canvas.StarPolygon(5, r, r/2.5, true)}
+		shapes := []*canvas.Path{canvas.Circle(r), canvas.Ellipse(r, r/2), canvas.Rectangle(r, r+1), canvas.RegularPolygon(3+c.Intn(6), r, true), canvas.StarPolygon(5, r, r/2.5, true),
+			pieSlice(c, r), twoArcCircle(c, r), blob(c, r), blob(c, r)}
 		p := shapes[c.Intn(len(shapes))]
 		if c.Bool() {
 			p = p.Reverse()
@@ -335,10 +354,44 @@ func flatClass(p hc.P2, cs [][]hc.P2, open bool) string {
 			}
 		}
 	}
+	if s == "" && coincidentHits(p, cs) {
+		s = "+coincident-hits"
+	}
 	if open {
 		s += "+open"
 	}
 	return s
+}
+
+// coincidentHits: a vertex lying exactly on the ray is also touched by another edge or vertex of the
+// path at the same place (then the two end-point hits of that vertex are not adjacent in the sorted
+// intersection list, which windings() assumes).
+func coincidentHits(p hc.P2, cs [][]hc.P2) bool {
+	type edge struct{ a, b hc.P2 }
+	var es []edge
+	for _, c := range cs {
+		for i := range c {
+			es = append(es, edge{c[i], c[(i+1)%len(c)]})
+		}
+	}
+	for _, c := range cs {
+		for _, v := range c {
+			if v.Y != p.Y || v.X < p.X {
+				continue
+			}
+			n := 0
+			for _, e := range es {
+				d := e.b.Sub(e.a)
+				if d.Cross(v.Sub(e.a)) == 0 && v.Sub(e.a).Dot(d) >= 0 && v.Sub(e.b).Dot(d) <= 0 {
+					n++
+				}
+			}
+			if n > 2 { // more than its own two incident edges
+				return true
+			}
+		}
+	}
+	return false
 }
 
 // illConditioned: the ray passes within the tolerance band of a vertex without being exactly level
@@ -352,6 +405,64 @@ func illConditioned(p hc.P2, cs [][]hc.P2) bool {
 		}
 	}
 	return false
+}
+
+// simple curved contours whose right-most point is NOT a vertex (orientation judged by area sign)
+
+// pieSlice: centre -> rim -> arc of more than half a turn -> back; the bulge faces a random direction
+func pieSlice(c *hc.Ctx, r float64) *canvas.Path {
+	a0 := c.Range(0, 2*math.Pi)
+	ext := c.Range(math.Pi*1.05, math.Pi*1.9)
+	p := &canvas.Path{}
+	p.MoveTo(0, 0)
+	p.LineTo(r*math.Cos(a0), r*math.Sin(a0))
+	p.ArcTo(r, r, 0, true, true, r*math.Cos(a0+ext), r*math.Sin(a0+ext))
+	p.Close()
+	return p
+}
+
+// twoArcCircle: a circle made of two arcs whose joints sit at arbitrary angles
+func twoArcCircle(c *hc.Ctx, r float64) *canvas.Path {
+	a0 := c.Range(0, 2*math.Pi)
+	a1 := a0 + c.Range(0.3, 2*math.Pi-0.3)
+	p := &canvas.Path{}
+	p.MoveTo(r*math.Cos(a0), r*math.Sin(a0))
+	large := a1-a0 > math.Pi
+	p.ArcTo(r, r, 0, large, true, r*math.Cos(a1), r*math.Sin(a1))
+	p.ArcTo(r, r, 0, !large, true, r*math.Cos(a0), r*math.Sin(a0))
+	p.Close()
+	return p
+}
+
+// blob: smooth star-shaped closed curve of quadratic Beziers (control points on a wavy polar curve,
+// joints at the midpoints), sometimes with a few straight notches
+func blob(c *hc.Ctx, r float64) *canvas.Path {
+	n := 5 + c.Intn(6)
+	pts := make([]hc.P2, n)
+	ph := c.Range(0, 2*math.Pi)
+	for i := range pts {
+		a := ph + 2*math.Pi*float64(i)/float64(n)
+		rr := r * c.Range(0.6, 1.3)
+		pts[i] = hc.P2{X: rr * math.Cos(a), Y: rr * math.Sin(a)}
+	}
+	mid := func(i int) hc.P2 {
+		a, b := pts[i%n], pts[(i+1)%n]
+		return hc.P2{X: (a.X + b.X) / 2, Y: (a.Y + b.Y) / 2}
+	}
+	p := &canvas.Path{}
+	m0 := mid(n - 1)
+	p.MoveTo(m0.X, m0.Y)
+	for i := 0; i < n; i++ {
+		m := mid(i)
+		if c.Chance(0.15) {
+			p.LineTo(pts[i].X*0.5, pts[i].Y*0.5) // notch towards the centre
+			p.LineTo(m.X, m.Y)
+		} else {
+			p.QuadTo(pts[i].X, pts[i].Y, m.X, m.Y)
+		}
+	}
+	p.Close()
+	return p
 }
 
 func fills(rule, w int) bool {
